@@ -139,6 +139,22 @@ Theorem C17_higher_order_derivative : forall d,
 Proof. exact reject_higher_order. Qed.
 Print Assumptions C17_higher_order_derivative.
 
+(* st_eqs d = Model.equations when transform_constants starts (conversion equations + all component equations);
+   a variable is a state when one of them is its ODE after the substitution of connected variables *)
+Theorem C17_state_without_initial_value : forall d,
+  (exists i x, nth_error (st_vars d) i = Some x /\ finit x = None /\ is_state (st_eqs d) i = true) ->
+  exists e, load d = Error e.
+Proof. exact reject_state_without_initial_value. Qed.
+Print Assumptions C17_state_without_initial_value.
+
+(* two definitions, third form: an initial value on a variable that is not a state and also has an equation *)
+Theorem C17_initial_value_and_equation : forall d,
+  (exists i x q, nth_error (st_vars d) i = Some x /\ finit x = Some q /\ is_state (st_eqs d) i = false /\
+                 defined (st_eqs d) (Z.of_nat i) = true) ->
+  exists e, load d = Error e.
+Proof. exact reject_initial_value_and_equation. Qed.
+Print Assumptions C17_initial_value_and_equation.
+
 (* nothing is silently dropped: every variable is present under its qualified name in document order, every
    component equation is in Model.equations (identifiers replaced by their representatives), every
    map_variables is in the mapping, its target is assigned, and it is either a substitution (factor 1) or
